@@ -379,8 +379,8 @@ def check(model, rep, tier):
            '_ALLOWLIST_CACHE[%s][%s]' % tuple(ca.params()) for n in ast.walk(ca.node))
   rep.check(ok, 'CACHE-ALLOWLIST', '%s:store' % ca.site,
             'failures are remembered per (entity, options)', line=ca.node.lineno)
-  ok = any(isinstance(r, ast.Return) and core.norm(r.value) ==
-           '_ALLOWLIST_CACHE.has(%s, %s)' % tuple(ia.params())
+  ok = any(isinstance(r, ast.Return) and r.value is not None and
+           tpl.xnorm(ia, r.value, r) == '_ALLOWLIST_CACHE.has(%s, %s)' % tuple(ia.params())
            for r in ast.walk(ia.node))
   rep.check(ok, 'CACHE-ALLOWLIST', '%s:lookup' % ia.site,
             'lookups use the same (entity, options) pair', line=ia.node.lineno)
